@@ -1,64 +1,84 @@
 mod broker;
 mod client;
+mod driver;
+mod expect;
+mod framework;
+mod gen;
+mod scen;
 mod session;
 mod stream;
 mod wire;
 mod world;
 
-use amiquip_simrt as simrt;
-use client::*;
-use session::*;
+fn usage() -> ! {
+    eprintln!("usage: simcheck run <PROP> <quick|thorough> [seed] [workers]\n       simcheck replay <PROP> <file> [--show]\n       simcheck determinism <PROP> [seed] [count]\n       simcheck one <PROP> <seed> [--show]   (single generated case)");
+    std::process::exit(2)
+}
 
 fn main() {
-    simrt::install_panic_hook(true);
     let args: Vec<String> = std::env::args().collect();
-    let seed: u64 = args.get(1).and_then(|s| s.parse().ok()).unwrap_or(1);
-    let plan = SessionPlan {
-        opts: ConnOpts::default(),
-        tuning: Tuning::default(),
-        threads: vec![ThreadPlan {
-            chan_ids: vec![None, Some(7)],
-            ops: vec![
-                (0, Op::QueueDeclare { name: "q1".into(), durable: true, exclusive: false, auto_delete: false, args: 1, mode: Mode::Sync }),
-                (1, Op::Publish { exchange: "".into(), rk: "q1".into(), mandatory: false, immediate: false, props: 3, body_len: 9000, via_exchange: false }),
-                (0, Op::Consume { queue: "q1".into(), no_local: false, no_ack: false, exclusive: false, args: 0, via_queue: false }),
-                (0, Op::Cancel { slot: 0 }),
-                (0, Op::Drain { slot: 0, max: None, acks: vec![AckKind::Ack], via_consumer: true }),
-            ],
-            close_channels: true,
-        }],
-        owner_ops: vec![],
-        close: CloseKind::Close,
+    if args.len() < 3 {
+        usage();
+    }
+    let cmd = args[1].as_str();
+    let scn = match scen::by_id(&args[2]) {
+        Some(s) => s,
+        None => {
+            eprintln!("unknown property {}", args[2]);
+            std::process::exit(2);
+        }
     };
-    let mut bcfg = broker::BrokerCfg::default();
-    bcfg.tune = (2047, 4096, 0);
-    bcfg.deliveries_min = 2;
-    bcfg.deliveries_max = 4;
-    bcfg.body_max = 10000;
-    bcfg.think_max_ns = 50_000;
-    bcfg.seg_mode = broker::SegMode::Random;
-    let mut ncfg = stream::NetCfg::default();
-    ncfg.wr_short_permille = 300;
-    ncfg.wr_block_permille = 200;
-    ncfg.wr_block_max_ns = 100_000;
-    let mut sched = simrt::SchedCfg::default();
-    sched.record_text = std::env::var("TRACE").is_ok();
-    let t0 = std::time::Instant::now();
-    let (res, world) = run_session(&plan, ncfg, bcfg, simrt::ChoiceStream::generate(seed), sched, seed, |_| {});
-    println!("outcome {:?} drained {} steps {} switches {} sim {}us wall {:?} hash {:x}", res.run.outcome, res.run.drained, res.run.fin.stats.steps, res.run.fin.stats.switches, res.run.fin.sim_ns / 1000, t0.elapsed(), res.run.fin.trace_hash);
-    for l in &res.run.fin.text {
-        println!("{}", l);
-    }
-    for c in &res.hist.conn {
-        println!("{:?}", c);
-    }
-    for o in &res.hist.ops {
-        let s = format!("{:?}", o.result);
-        println!("t{} #{} ch{} {:?} -> {}", o.thread, o.idx, o.ch_id, o.op, &s[..s.len().min(200)]);
-    }
-    let n = world.net.lock().unwrap();
-    let (hdr, frames, used) = wire::split_stream(&n.c2s, true).unwrap();
-    println!("c2s {} bytes hdr {} frames {} used {} stats {:?}", n.c2s.len(), hdr, frames.len(), used, n.stats);
-    println!("panics {:?}", res.run.panics);
-    println!("broker stats {:?} err {:?}", world.broker.stats, world.broker.envelope_error);
+    let env_seed = std::env::var("VERIF_SEED").ok().and_then(|s| s.parse::<u64>().ok());
+    let code = match cmd {
+        "run" => {
+            let thorough = args.get(3).map(|s| s == "thorough").unwrap_or(false);
+            let seed = args.get(4).and_then(|s| s.parse().ok()).or(env_seed).unwrap_or(1);
+            let workers = args.get(5).and_then(|s| s.parse().ok()).unwrap_or_else(driver::ncpus);
+            driver::run_main(scn.as_ref(), thorough, seed, workers)
+        }
+        "worker" => {
+            let thorough = args[3] == "thorough";
+            let seed: u64 = args[4].parse().unwrap();
+            let w: usize = args[5].parse().unwrap();
+            let n: usize = args[6].parse().unwrap();
+            let cap: u64 = args[7].parse().unwrap();
+            driver::worker_main(scn.as_ref(), thorough, seed, w, n, cap)
+        }
+        "replay" => driver::replay_main(scn.as_ref(), &args[3], args.iter().any(|a| a == "--show")),
+        "minimise" => driver::minimise_main(scn.as_ref(), &args[3], &args[4]),
+        "determinism" => {
+            let seed = args.get(3).and_then(|s| s.parse().ok()).or(env_seed).unwrap_or(1);
+            let count = args.get(4).and_then(|s| s.parse().ok()).unwrap_or(2000);
+            driver::determinism_main(scn.as_ref(), seed, count)
+        }
+        "hashes" => {
+            let seed: u64 = args[3].parse().unwrap();
+            let w: usize = args[4].parse().unwrap();
+            let n: usize = args[5].parse().unwrap();
+            let count: usize = args[6].parse().unwrap();
+            driver::hashes_main(scn.as_ref(), seed, w, n, count)
+        }
+        "one" => {
+            let seed: u64 = args[3].parse().unwrap();
+            let show = args.iter().any(|a| a == "--show");
+            amiquip_simrt::install_panic_hook(show);
+            let plan = scn.plan(false, seed);
+            let idx: usize = args.get(4).and_then(|s| s.parse().ok()).unwrap_or(0);
+            let spec = plan[idx.min(plan.len() - 1)].clone();
+            let t0 = std::time::Instant::now();
+            let rep = scn.run_case(&spec, show);
+            if show {
+                for l in &rep.text {
+                    println!("{}", l);
+                }
+            }
+            println!("sample: {}", rep.sample);
+            println!("counters: {:?}", rep.counters);
+            println!("violations: {:#?}", rep.violations);
+            println!("nontrivial {} inconclusive {:?} steps {} sim {}us wall {:?}", rep.nontrivial, rep.inconclusive, rep.steps, rep.sim_ns / 1000, t0.elapsed());
+            if rep.violations.is_empty() { 0 } else { 1 }
+        }
+        _ => usage(),
+    };
+    std::process::exit(code);
 }
